@@ -14,7 +14,6 @@ import json, os, subprocess, sys, glob, re, time
 VERIF = "/verif"
 REPO = "/repo"
 EXPECTED_MISS = {
-    "C12-A": "answerQueue.fulfill is not under contract (its drain loop calls unknown receive functions)",
     "C18-C": "rewrites the scanned loop: contract drift, reported UNDECIDED by design",
     "C18-A": "superseded: the code it patches was rewritten by the F20 fix",
     "C16-A": "changes the loop header the invariants are attached to: contract drift, reported UNDECIDED by design",
